@@ -63,7 +63,9 @@ Templates(ps) ==
 UseAtoms == {MkInt(1), MkInt(2), L, Z, KW, True}
 UseElems == UseAtoms \cup {MkList(<<MkInt(1)>>), MkList(<<MkInt(1), MkInt(2)>>), MkList(<<L, MkInt(1)>>), MkList(<<>>), Vlit(<<MkInt(1), L>>),
                           MkList(<<MkList(<<MkInt(2)>>), L>>), MkList(<<KW, MkInt(1)>>)}
-Uses == UNION {[1..n -> UseElems] : n \in 0..MaxUse}
+\* two-rule sets have flat patterns: at use length 3 their uses draw on the atoms and two compound data
+PairUseElems == (UseAtoms \ {MkInt(2)}) \cup {MkList(<<MkInt(1)>>), MkList(<<KW, MkInt(1)>>)}
+Uses == UNION {[1..n -> (IF Mode = "pairs" /\ MaxUse >= 3 THEN PairUseElems ELSE UseElems)] : n \in 0..MaxUse}
 
 Rule(ps, t) == [pat |-> ps, tmpl |-> t]
 VARIABLES rules, args, phase
